@@ -1649,6 +1649,12 @@ def gen_lattice(rng, dialect: str) -> dict:
         typ = types[int(rng.choice(len(types), p=w / w.sum()))]
         counters[typ] = counters.get(typ, 0) + 1
         name = PREFIX.get(typ, "x") + ("." if dotted and rng.random() < 0.5 else "") + str(counters[typ])
+        same = [n for n, t in elems if t == typ]
+        if same and rng.random() < 0.3:
+            # a name that extends another element's name (q1 / q1a): wildcard patterns must match whole names
+            cand = same[int(rng.integers(len(same)))] + str(rng.choice(["a", "x", "0"]))
+            if all(cand != n for n, _ in elems):
+                name = cand
         spelled = typ if rng.random() < 0.7 else str(rng.choice([typ] + tb[typ].get("alias", [])))
         props = gen_props(rng, dialect, typ, omit_p=0.08, ign_p=0.25)
         new_vars: list = []
@@ -1696,6 +1702,8 @@ def gen_lattice(rng, dialect: str) -> dict:
                 target = f"{typ}::{name[0]}*"
             elif r < 0.5 and "." not in name:
                 target = f"{typ}::{name[:-1]}%"
+            elif r < 0.6 and len(name) >= 3 and "." not in name:
+                target = f"{typ}::{name[0]}*{name[-1]}"
             stmts.append({"k": "assign", "target": target, "prop": p, "expr": e})
     # lines
     names = [n for n, _ in elems]
@@ -1853,8 +1861,8 @@ def feature_lattices() -> list:
     for dialect in ("elegant", "bmad"):
         qt = "quad" if dialect == "elegant" else "quadrupole"
 
-        def mk(stmts, dialect=dialect):
-            stmts = list(stmts) + [{"k": "line", "name": "lat", "items": ["q1", "d1", "q2", "d1"]}]
+        def mk(stmts, dialect=dialect, items=("q1", "d1", "q2", "d1")):
+            stmts = list(stmts) + [{"k": "line", "name": "lat", "items": list(items)}]
             if dialect == "bmad":
                 stmts.append({"k": "use", "name": "lat"})
             return {"dialect": dialect, "stmts": stmts, "root": "lat", "dtype": "float32"}
@@ -1893,6 +1901,11 @@ def feature_lattices() -> list:
             out.append(("bmad:assign", mk([q1, q2, d1, {"k": "assign", "target": "q1", "prop": "k1", "expr": ["n", "0.7"]}])))
             out.append(("bmad:wildcard*", mk([q1, q2, d1, {"k": "assign", "target": "quadrupole::q*", "prop": "k1", "expr": ["n", "0.7"]}])))
             out.append(("bmad:wildcard%", mk([q1, q2, d1, {"k": "assign", "target": "quadrupole::q%", "prop": "k1", "expr": ["n", "0.7"]}])))
+            # a wildcard pattern selects the names it matches as a whole (q1, not q1a / q12)
+            q1a = {**q2, "name": "q1a"}
+            q12 = {**q2, "name": "q12"}
+            out.append(("bmad:wildcard% whole name", mk([q1, q1a, d1, {"k": "assign", "target": "quadrupole::q%", "prop": "k1", "expr": ["n", "0.7"]}], items=("q1", "d1", "q1a", "d1"))))
+            out.append(("bmad:wildcard*x whole name", mk([q1, q12, d1, {"k": "assign", "target": "quadrupole::q*1", "prop": "k1", "expr": ["n", "0.7"]}], items=("q1", "d1", "q12", "d1"))))
             out.append(("bmad:dotted-assign", rename(mk([q1, q2, d1, {"k": "assign", "target": "q2", "prop": "k1", "expr": ["n", "0.7"]}]), "q2", "q.2")))
             out.append(("bmad:implicit-cont", mk([{**q1, "st": {**PLAIN, "brk": [3], "impl": True}}, q2, d1])))
             out.append(("bmad:order", {"dialect": "bmad", "root": "lat", "dtype": "float32", "stmts": [
